@@ -23,6 +23,7 @@ const (
 	SpAnon    = "anon"    // struct{ H, X<i> uint64 }: an unnamed struct type
 	SpArray   = "array"   // [i+1]uint64: an unnamed array type
 	SpFunc    = "func"    // func(B<i>) uint64: an unnamed function type
+	SpCtxLike = "ctxlike" // ictx.Context: an interface of a user package named context that context.Context satisfies (one per program)
 	SpIface   = "iface"   // I<i>: named interfaces with one common method set - distinct types whose values are assignable to one another
 	SpTime    = "time"    // time.Time (a type the generated code has locals of: startTime)
 )
